@@ -445,7 +445,9 @@ def strat_custom(draw, tier="quick"):
     case = {"form": form, "c0": draw(st.floats(-3, 3)), "c1": draw(st.floats(0.5, 4)), "s0": draw(st.floats(0.1, 2)), "s1": draw(st.floats(0.1, 2)), "k": draw(st.floats(-0.5, 0.5)),
             "defaults": {nm: draw(st.sampled_from([1.0, 2.0, 0.5, -1.0])) for nm in names}, "values": {nm: draw(st.floats(-2, 4)) for nm in names}, "set_values": draw(st.booleans()),
             "fitted": draw(st.booleans()), "fix": draw(st.sampled_from([None, None, names[-1]])), "limit": draw(st.sampled_from([None, None, names[0]])),
-            "constraint": draw(st.booleans()), "via": draw(st.sampled_from(["own", "base"])), "minimizer": draw(st.sampled_from(["iminuit", "scipy"])),
+            "constraint": draw(st.booleans()), "via": draw(st.sampled_from(["own", "base"])), "minimizer": draw(st.sampled_from(["iminuit", "scipy", None])),
+            # options handed to the minimizer (errordef 0.5: the cost is a negative log-likelihood, not twice it) - they belong to the fit and must survive a save
+            "mkw": draw(st.sampled_from([None, None, {"errordef": 0.5}])),
             "pts": draw(st.lists(st.lists(st.floats(-2, 2), min_size=3, max_size=3), min_size=2, max_size=3))}
     return case
 
@@ -457,7 +459,7 @@ def _build_custom(case):
     expr = text.format(**{k_: float(case[k_]) for k_ in ("c0", "c1", "s0", "s1", "k")})
     src = M.render("my_cost", expr, names, case["defaults"], first_args=())
     f = M.compile_function(src, "my_cost")
-    fit = kafe2.CustomFit(f, minimizer=case["minimizer"])
+    fit = kafe2.CustomFit(f, minimizer=case["minimizer"], **({"minimizer_kwargs": dict(case["mkw"])} if case.get("mkw") else {}))
     if case["set_values"]:
         fit.set_parameter_values(**case["values"])
     if case["fix"]:
@@ -532,7 +534,11 @@ def run_custom(case):
     sd = np.where(free, ea, 1e-9)
     if np.any(np.abs(va - vb) > 0.03 * sd):
         raise Violation("custom:refit", f"{va.tolist()} / {vb.tolist()} (sigma {ea.tolist()})")
-    labels = {"custom", "fitted" if case["fitted"] else "unfitted"} | ({"values_set"} if case["set_values"] else set())
+    eb = np.asarray(r.parameter_errors, float)
+    # the refit of the reloaded fit reports the same uncertainties (15 %: with iminuit these are MIGRAD's running estimates; a lost errordef is a factor 1.41)
+    if np.all(np.isfinite(eb[free])) and np.any(np.abs(ea - eb)[free] > 0.15 * ea[free]):
+        raise Violation("custom:refit-errors", f"uncertainties after refitting: original {ea.tolist()}, reloaded {eb.tolist()} (minimizer {case['minimizer']!r}, minimizer_kwargs {case.get('mkw')!r})")
+    labels = {"custom", "fitted" if case["fitted"] else "unfitted"} | ({"values_set"} if case["set_values"] else set()) | ({"minimizer_kwargs"} if case.get("mkw") else set())
     return {"nontrivial": bool(case["set_values"] or case["fitted"] or case["fix"] or case["limit"] or case["constraint"]), "labels": sorted(labels)}
 
 
